@@ -40,6 +40,10 @@ def make(c, stochastic):
       return Q.quantized_po2(c["bits"], max_value=mv, use_stochastic_rounding=stochastic)
     return Q.quantized_relu_po2(c["bits"], max_value=mv, use_stochastic_rounding=stochastic)
   k = c["kind"]
+  if k in ("po2_quad", "relu_po2_quad"):    # quadratic_approximation: only "inference = the deterministic configuration"
+    mv = 2.0 ** c["mvk"] if c["hasmv"] else None
+    ctor = Q.quantized_po2 if k == "po2_quad" else Q.quantized_relu_po2
+    return ctor(c["bits"], max_value=mv, use_stochastic_rounding=stochastic, quadratic_approximation=True)
   alpha = None if c["alpha"] == "None" else (c["alpha"] if c["alpha"].startswith("auto") else float(c["alpha"]))
   if k == "binary_sr":
     return Q.binary(alpha=alpha, use_stochastic_rounding=stochastic)
@@ -57,7 +61,7 @@ def inputs(c, rnd, tier):
     x = cell_inputs(c, rnd, tier == "thorough" or c["bits"] <= 4)
     extra = f32([rnd.uniform(-3, 3) for _ in range(40)])
     return [np.concatenate([x[np.abs(x) < 1e5], extra])]
-  if c["fam"] == "po2":
+  if c["fam"] == "po2" or c.get("kind", "").endswith("_quad"):
     xs = []
     for k in range(-12, 10):
       for m in (1.0, 1.0625, 1.25, 1.5, 1.75, 1.9375):
